@@ -60,6 +60,13 @@ func (e *Env) ghostClause(cl *Clause) {
 		e.forceClass = cl.Int
 	case "assume-fresh":
 		v := c.tr(cl.Expr)
+		if v.K == VSlice {
+			// storage nobody else references (or none at all)
+			e.assume(Or(Eq(v.Ref, IntLit(0)), Ge(v.Ref, e.nextRef())))
+			e.assign("$nextRef", SInt, Ite(Eq(v.Ref, IntLit(0)), e.nextRef(), Add(v.Ref, IntLit(1))))
+			e.w.trustedNote("assumed in " + e.short + ": the storage of " + cl.Expr.String() + " is referenced by nobody else (sync.Pool contract)")
+			return
+		}
 		if v.K != VPtr {
 			e.errorf("assume-fresh: %s is not a pointer", cl.Expr.String())
 			return
